@@ -258,6 +258,11 @@ class Evaluator:
             return self.call(m, {}, None, depth + 1, selfobj=obj)
         if m is not None:
             return ("bound", obj, m)
+        for c in obj.cls.mro():
+            if attr in c.class_consts:                   # a class-level constant read through the instance
+                host = next(iter(c.methods.values()), None)
+                if host is not None:
+                    return self.expr(c.class_consts[attr], {}, host, depth + 1)
         raise Raised("AttributeError")
 
     def new(self, cls, **kws):
